@@ -9,11 +9,13 @@ from proto import enc
 TRUSTED_BASE = [
     "Coq 8.16.1 kernel (coqc); vm_compute only in the non-vacuity example of C15_programs; no native_compute",
     "axioms: none (Print Assumptions: Closed under the global context for every theorem)",
-    "yarl/_path.py: re-translated to Gallina from the source on every run by harness/gen_model.py (Python ast, ~230 lines, whitelisted "
+    "yarl/_path.py: re-translated to Gallina from the source on every run by harness/gen_model.py (Python ast, whitelisted "
     "subset, fails closed with a stub) and proved equal to the hand-written model coq/Model/Path.v (C15_source_*); the translator's "
     "reading of the Python subset (list order, pop under suppress(IndexError) = removelast, str indexing guards) is trusted and "
     "cross-checked by the correspondence suites below",
-    "hand-written model coq/Model/Url.v of the entry points (constructor, build, modifiers, join): validated, not proved, by the URL-level suite",
+    "model coq/Model/Url.v of the entry points: the constructor (encode_url), build, with_path, _make_child ('/' and joinpath), with_name, with_suffix, parent "
+    "and join are ALSO re-translated from yarl/_url.py on every run and proved equal to it (C15_source_with_path, C15_source_make_child, C15_source_build, "
+    "C07_source_encode_url, C13_source_*, C14_source_join); split_url is validated, not proved, by the URL-level suite",
     "Spec/Rds.v is my transcription of RFC 3986 5.2.4",
     "extraction (ExtrOcamlBasic only, no Extract Constant/Inductive of my own), ocaml/driver*.ml, OCaml 4.13.1",
     "harness: harness/core.py, impl_worker.py (exceptions compared by type only)",
